@@ -1,0 +1,73 @@
+//go:build verif
+
+package remote
+
+import (
+	pb "github.com/bazelbuild/remote-apis/build/bazel/remote/execution/v2"
+
+	"github.com/thought-machine/please/src/core"
+)
+
+// VerifOfflineClient returns a client that never contacts a server. Only the parts that compute
+// digests locally are usable.
+func VerifOfflineClient(state *core.BuildState) *Client {
+	c := &Client{
+		state:        state,
+		instance:     state.Config.Remote.Instance,
+		outputs:      make(map[core.BuildLabel]*pb.Directory, 100),
+		subrepoTrees: make(map[core.BuildLabel]*pb.Tree, 10),
+		shellPath:    state.Config.Remote.Shell,
+		platform:     convertPlatform(state.Config.Remote.Platform),
+	}
+	c.initOnce.Do(func() {})
+	return c
+}
+
+// VerifSetOutputs records the output directory of an (assumed built) target.
+func (c *Client) VerifSetOutputs(label core.BuildLabel, dir *pb.Directory) {
+	c.outputMutex.Lock()
+	defer c.outputMutex.Unlock()
+	c.outputs[label] = dir
+}
+
+// VerifInputRoot computes the input root for a target, returning it with every directory proto built.
+func (c *Client) VerifInputRoot(target *core.BuildTarget, isTest bool) (*pb.Directory, map[string]*pb.Directory, error) {
+	b, err := c.uploadInputDir(nil, target, isTest)
+	if err != nil {
+		return nil, nil, err
+	}
+	root := b.Build(nil)
+	return root, b.dirs, nil
+}
+
+// VerifDigest returns the digest of a proto message as this client computes it.
+func (c *Client) VerifDigest(dir *pb.Directory) *pb.Digest {
+	return c.digestMessage(dir)
+}
+
+// VerifBuildAction computes the command and action digest of a target without uploading.
+func (c *Client) VerifBuildAction(target *core.BuildTarget, isTest, stamp bool) (*pb.Command, *pb.Digest, error) {
+	return c.buildAction(target, isTest, stamp, 1)
+}
+
+// A VerifDirBuilder exposes the directory builder to external monitors.
+type VerifDirBuilder struct {
+	b *dirBuilder
+}
+
+// VerifNewDirBuilder creates a new directory builder.
+func VerifNewDirBuilder(c *Client) *VerifDirBuilder {
+	return &VerifDirBuilder{b: newDirBuilder(c)}
+}
+
+// Dir ensures the directory exists and returns it.
+func (v *VerifDirBuilder) Dir(name string) *pb.Directory { return v.b.Dir(name) }
+
+// Build finalises the builder and returns the root.
+func (v *VerifDirBuilder) Build() *pb.Directory { return v.b.Build(nil) }
+
+// Tree returns the tree rooted at the given directory.
+func (v *VerifDirBuilder) Tree(root string) *pb.Tree { return v.b.Tree(root) }
+
+// Dirs returns all directories known to the builder, by path.
+func (v *VerifDirBuilder) Dirs() map[string]*pb.Directory { return v.b.dirs }
